@@ -49,6 +49,7 @@ type vfPipeCfg struct {
 	CancelAt   int  // cancel when the k-th seam event is logged (0: after quiescence)
 	Procs      int  // GOMAXPROCS
 	GenFails   bool // GenerateRequests itself returns an error
+	RcvGate    bool // the first frame write returns only when the receiver has processed all RcvErrs frames (the sender is busy meanwhile)
 }
 
 type vfPipe struct {
@@ -58,6 +59,8 @@ type vfPipe struct {
 	reqErr    map[int]bool
 	fillFail  map[int]bool
 	writeFail map[int]bool
+	gated     int64
+	rcvSeen   int64
 	built     sync.Map // id -> []byte
 	fills     int64
 	done      atomic.Value // <-chan interface{}
@@ -196,6 +199,17 @@ func (w *vfRW) WritePacketData(pkt []byte) error {
 		}
 	}
 	p.ev(map[string]interface{}{"ev": "WriteBegin", "id": id, "doneClosed": doneClosed})
+	if p.cfg.RcvGate && atomic.CompareAndSwapInt64(&p.gated, 0, 1) {
+		// the wire is busy with this frame for as long as the receive path needs to work through its burst of bad frames: the
+		// receiver must not depend on the sender making progress
+		deadline := time.Now().Add(10 * time.Second)
+		for atomic.LoadInt64(&p.rcvSeen) < int64(p.cfg.RcvErrs) && time.Now().Before(deadline) {
+			time.Sleep(200 * time.Microsecond)
+		}
+		if n := atomic.LoadInt64(&p.rcvSeen); n < int64(p.cfg.RcvErrs) {
+			p.ev(map[string]interface{}{"ev": "Hang", "what": fmt.Sprintf("receiver processed %d of %d frames in 10 s while the sender was busy with one write", n, p.cfg.RcvErrs)})
+		}
+	}
 	lr := rand.New(rand.NewSource(int64(id)*40503 + 7))
 	if p.cfg.HoldWrites > 0 {
 		target := atomic.LoadInt64(&p.fills) + int64(p.cfg.HoldWrites)
@@ -237,6 +251,7 @@ type vfProc struct{ p *vfPipe }
 func (pr *vfProc) ProcessPacketData(data []byte, _ *gopacket.CaptureInfo) error {
 	j := int(binary.BigEndian.Uint32(data))
 	atomic.AddInt64(&pr.p.injected, 1)
+	atomic.AddInt64(&pr.p.rcvSeen, 1)
 	pr.p.ev(map[string]interface{}{"ev": "RcvFail", "id": j})
 	return &vfPipeErr{"rcv", j}
 }
@@ -406,6 +421,14 @@ func TestVfPipeline(t *testing.T) {
 		if k%40 == 39 {
 			c.GenFails = true
 		}
+		out.write(vfRunPipe(c, seed+int64(runs)))
+		runs++
+	}
+	// a burst of more receive-side failures than the receiver's error channel holds while the sender is inside one write
+	for k := 0; k < 3; k++ {
+		c := pick(20 + rnd.Intn(100))
+		c.RcvErrs, c.RcvGate, c.Jitter, c.HoldWrites = []int{150, 260, 420}[k], true, 0, 0
+		c.ReqErr, c.FillErr, c.WriteErr = 0, 0, 0
 		out.write(vfRunPipe(c, seed+int64(runs)))
 		runs++
 	}
